@@ -556,6 +556,12 @@ async fn run_scenario(line: &[&str]) -> String {
                     .collect();
                 format!("[{}]", lines.join("|"))
             }
+            "ranks" => {
+                // rank of every node's PeerId in the PeerId order
+                let mut v: Vec<(PeerId, usize)> = w.nodes.iter().map(|(i, n)| (n.peer_id, *i)).collect();
+                v.sort();
+                v.iter().enumerate().map(|(r, (_, i))| format!("{i}:{r}")).collect::<Vec<_>>().join(",")
+            }
             "idlt" => {
                 let (i, j): (usize, usize) = (t[1].parse().unwrap(), t[2].parse().unwrap());
                 format!("{}", (w.nodes[&i].peer_id < w.nodes[&j].peer_id) as u8)
